@@ -220,9 +220,21 @@ class Logic(object):
     return truthy(v)
 
 
+_DERIVED_CACHE = {}
+
+
 def derived_attr_defs(cls):
   """self.x -> expr for attributes defined in __init__ by one unconditional
   assignment (used to resolve e.g. self.num_constraint_dims)."""
+  hit = _DERIVED_CACHE.get(id(cls))
+  if hit is not None and hit[0] is cls:
+    return dict(hit[1])
+  out = _derived_attr_defs(cls)
+  _DERIVED_CACHE[id(cls)] = (cls, out)
+  return dict(out)
+
+
+def _derived_attr_defs(cls):
   out = {}
   init = cls.find_method('__init__')
   if init is None:
@@ -513,6 +525,8 @@ def check_guard(prog, res, fn, call, callee, rule='W3', key=None,
       if tv != pol:
         g = False
         break
+    if g is True:
+      continue    # obligation "acts => guarded" holds trivially
     act = Activation(prog, skip_params=covered_elsewhere)
     if isinstance(callee, ClassInfo):
       arg_vals = {p: lg.val(v) for p, v in bound.items()}
